@@ -6,7 +6,7 @@
     field decomposition, the one-leap-second timeline [tl_add]/[tl_diff]/[tl_shift]). *)
 From Coq Require Import ZArith List Bool String.
 From V Require Import Base.Int Base.IO Model.TimeDelta Model.Time Spec.TimeOfDay Spec.Gregorian Proofs.C06 Proofs.Time Proofs.C07.
-From V Require Model.DateTime Proofs.C03 Proofs.C07Ndt.
+From V Require Model.DateTime Proofs.C03 Proofs.C07Ndt Proofs.C08Sweeps Proofs.HoldsLib Proofs.C07Holds Judge.C07.
 From V Require Import Model.C07 Proofs.C07Ops.
 Import ListNotations.
 Open Scope Z_scope.
@@ -401,3 +401,90 @@ Example C07_ops_inhabited :
   unwrap (from_num_seconds_from_midnight_opt 86399 1999999999) = Val (mk_time 86399 1999999999).
 Proof. exact ops_inhabited. Qed.
 Print Assumptions C07_ops_inhabited.
+
+(* ---- NaiveDateTime + / - core::time::Duration (ops ndt.addstd, ndt.substd and the += / -= forms, which the
+   dispatcher answers with the same function: C07_dispatch_std).  For every valid date-time and EVERY Duration
+   (u64 seconds, nanoseconds below 10^9): with D the Duration in nanoseconds, the result is the timeline rule
+   of the time of day (add_result = Spec/TimeOfDay.v tl_add, leap-second operands included) with the carry
+   applied to the date; Panic exactly when D exceeds TimeDelta::MAX (9223372036854775807 ms) or the date
+   leaves the representable range.  DMAXNS is TimeDelta::MAX in nanoseconds, the judge's DMAX *)
+Example C07_DMAXNS_value : Proofs.C07Holds.DMAXNS = 9223372036854775807000000 /\ Proofs.C07Holds.DMAXNS = Judge.C07.DMAX.
+Proof. exact (conj eq_refl eq_refl). Qed.
+Print Assumptions C07_DMAXNS_value.
+Theorem C07_ndt_add_std : forall a ds dn,
+  Proofs.C03.vdate (DateTime.nd_date a) -> tvalid (DateTime.nd_time a) -> in_u64 ds = true -> 0 <= dn < 1000000000 ->
+  let D := ds * 1000000000 + dn in
+  if D <=? Proofs.C07Holds.DMAXNS then
+    let ar := add_result (tsecs (DateTime.nd_time a)) (tfrac (DateTime.nd_time a)) (1 * D) in
+    let n := Proofs.C03.dn (DateTime.nd_date a) + snd ar / 86400 in
+    if dn_in_range n
+    then exists b, ndt_add_std a ds dn = Val b /\ DateTime.nd_time b = fst ar /\
+                   Proofs.C03.vdate (DateTime.nd_date b) /\ Proofs.C03.dn (DateTime.nd_date b) = n
+    else ndt_add_std a ds dn = Panic
+  else ndt_add_std a ds dn = Panic.
+Proof. exact Proofs.C07Holds.ndt_add_std_spec. Qed.
+Print Assumptions C07_ndt_add_std.
+Theorem C07_ndt_sub_std : forall a ds dn,
+  Proofs.C03.vdate (DateTime.nd_date a) -> tvalid (DateTime.nd_time a) -> in_u64 ds = true -> 0 <= dn < 1000000000 ->
+  let D := ds * 1000000000 + dn in
+  if D <=? Proofs.C07Holds.DMAXNS then
+    let ar := add_result (tsecs (DateTime.nd_time a)) (tfrac (DateTime.nd_time a)) (-1 * D) in
+    let n := Proofs.C03.dn (DateTime.nd_date a) + snd ar / 86400 in
+    if dn_in_range n
+    then exists b, ndt_sub_std a ds dn = Val b /\ DateTime.nd_time b = fst ar /\
+                   Proofs.C03.vdate (DateTime.nd_date b) /\ Proofs.C03.dn (DateTime.nd_date b) = n
+    else ndt_sub_std a ds dn = Panic
+  else ndt_sub_std a ds dn = Panic.
+Proof. exact Proofs.C07Holds.ndt_sub_std_spec. Qed.
+Print Assumptions C07_ndt_sub_std.
+(* all three outcomes occur: a leap-second operand carried over midnight into the next year; a Duration one
+   millisecond beyond TimeDelta::MAX; the largest convertible Duration pushing the date out of range *)
+Example C07_ndt_std_inhabited :
+  ndt_add_std (DateTime.mk_ndt Proofs.C07Ndt.leap_date (mk_time 86399 1500000000)) 1 0 =
+    Val (DateTime.mk_ndt (Proofs.C08Sweeps.mkdate 2017 1) (mk_time 0 500000000)) /\
+  ndt_add_std (DateTime.mk_ndt Proofs.C07Ndt.leap_date (mk_time 0 0)) 9223372036854775 808000000 = Panic /\
+  (9223372036854775 * 1000000000 + 807000000 <=? Proofs.C07Holds.DMAXNS) = true /\
+  ndt_sub_std (DateTime.mk_ndt Proofs.C07Ndt.leap_date (mk_time 0 0)) 9223372036854775 807000000 = Panic.
+Proof. exact Proofs.C07Holds.ndt_std_examples. Qed.
+Print Assumptions C07_ndt_std_inhabited.
+Theorem C07_dispatch_std : forall args,
+  run (B"ndt.addstd") args = Proofs.C07Holds.sh_ns (fun a s n => val_of_R DateTime.enc_ndt (ndt_add_std a s n)) args /\
+  run (B"ndt.substd") args = Proofs.C07Holds.sh_ns (fun a s n => val_of_R DateTime.enc_ndt (ndt_sub_std a s n)) args /\
+  run (B"ndt.addstd_assign") args = Proofs.C07Holds.sh_ns (fun a s n => val_of_R DateTime.enc_ndt (ndt_add_std a s n)) args /\
+  run (B"ndt.substd_assign") args = Proofs.C07Holds.sh_ns (fun a s n => val_of_R DateTime.enc_ndt (ndt_sub_std a s n)) args.
+Proof. exact Proofs.C07Holds.dispatch_std. Qed.
+Print Assumptions C07_dispatch_std.
+
+(* ---- judge acceptance.  For EVERY op name and EVERY argument list: whenever the independent executable
+   statement of the property (Judge/C07.v, written from the property text over Spec/TimeOfDay.v and
+   Spec/Gregorian.v) has an opinion on the case, it accepts the model's output.  All 41 ops of the dispatcher
+   are covered (an unknown op name is skipped by the judge).  39 ops need no premise at all
+   (C07_holds_strict).  The two Timelike-on-NaiveDateTime ops (ndt.tacc, ndt.twith) need the argument list to
+   decode ([run op args <> VBad]): their judge reads the time part only and does not examine the date, while
+   the dispatcher decodes the whole date-time first and answers BADARGS for a date that does not exist (such
+   cases are ignored by the check on both sides; C07_holds_premise_needed shows one) *)
+Theorem C07_holds_strict : forall op args, op_is op "ndt.tacc" = false -> op_is op "ndt.twith" = false ->
+  Judge.C07.judge op args (run op args) <> JSkip -> Judge.C07.judge op args (run op args) = JOk.
+Proof. exact Proofs.C07Holds.C07_holds_strict. Qed.
+Print Assumptions C07_holds_strict.
+Theorem C07_holds : forall op args, run op args <> VBad ->
+  Judge.C07.judge op args (run op args) <> JSkip -> Judge.C07.judge op args (run op args) = JOk.
+Proof. exact Proofs.C07Holds.C07_holds. Qed.
+Print Assumptions C07_holds.
+Theorem C07_never_bad : forall op args, run op args <> VBad ->
+  Proofs.HoldsLib.not_bad (Judge.C07.judge op args (run op args)).
+Proof. exact Proofs.C07Holds.C07_never_bad. Qed.
+Print Assumptions C07_never_bad.
+Example C07_holds_premise_needed :
+  run (B"ndt.tacc") [VTup [VInt 2001; VInt 400; VInt 0; VInt 0]] = VBad /\
+  Judge.C07.judge (B"ndt.tacc") [VTup [VInt 2001; VInt 400; VInt 0; VInt 0]] VBad <> JSkip.
+Proof. exact Proofs.C07Holds.tacc_lazy_judge_example. Qed.
+Print Assumptions C07_holds_premise_needed.
+Example C07_holds_inhabited :
+  run (B"ndt.addstd") [VTup [VInt 2016; VInt 366; VInt 86399; VInt 1500000000]; VInt 1; VInt 0]
+    = VTup [VInt 2017; VInt 1; VInt 0; VInt 500000000] /\
+  Judge.C07.judge (B"ndt.addstd") [VTup [VInt 2016; VInt 366; VInt 86399; VInt 1500000000]; VInt 1; VInt 0]
+    (VTup [VInt 2017; VInt 1; VInt 0; VInt 500000000]) = JOk /\
+  run (B"ndt.tacc") [VTup [VInt 2016; VInt 366; VInt 86399; VInt 1500000000]] <> VBad.
+Proof. exact Proofs.C07Holds.holds_inhabited. Qed.
+Print Assumptions C07_holds_inhabited.
